@@ -108,6 +108,9 @@ def _limit():
         pass
 
 
+CRASH_LOG = {}   # input line -> tail of the stderr of the process that died on it
+
+
 def run_lines(cmd, lines, timeout=60.0, limit_mem=True, env=None):
     """Feed `lines` to a line-oriented process; return one output per line.
     A line on which the process dies or stalls gets 'crash' / 'hang'; processing resumes after it."""
@@ -134,6 +137,8 @@ def run_lines(cmd, lines, timeout=60.0, limit_mem=True, env=None):
         outs.extend(got)
         i += len(got)
         if len(got) < len(chunk):
+            if status == 'crash':
+                CRASH_LOG[chunk[len(got)]] = p.stderr.decode(errors='replace')[-3000:]
             outs.append(status)
             i += 1
     return outs
@@ -335,6 +340,8 @@ class Check:
             self.known.setdefault(f['id'], []).append(case)
             return
         case = dict(case, kind=kind)
+        if case.get('impl') == 'crash' and case.get('input') in CRASH_LOG:
+            case['stderr'] = CRASH_LOG[case['input']]
         self.violations.append(case)
 
     # ---- output
